@@ -117,6 +117,12 @@ func newResult(t reflect.Type, opts resultOptions) (result, error) {
 				return nil, newErrInvalidInput(fmt.Sprintf(
 					"flatten can be applied to slices only: %v is not a slice", t), nil)
 			}
+			if rg.Type != t {
+				// rg.Type was replaced by an interface from dig.As: there is
+				// no element type to take.
+				return nil, newErrInvalidInput(fmt.Sprintf(
+					"cannot use dig.As with flatten: %v is provided as %v", t, rg.Type), nil)
+			}
 			rg.Type = rg.Type.Elem()
 		}
 		return rg, nil
